@@ -68,6 +68,7 @@ func copyRules(rs []Rule) []Rule {
 	out := make([]Rule, len(rs))
 	for i, r := range rs {
 		out[i] = r
+		out[i].Igns = append([]Ign{}, r.Igns...)
 		out[i].Files = append([]string{}, r.Files...)
 		out[i].Sels = append([]Sel{}, r.Sels...)
 		out[i].Include = append([]string{}, r.Include...)
@@ -100,6 +101,25 @@ func (g *gstate) randSel(pkg string) Sel {
 		return Sel{K: "all", Dir: pkg + "/d", Raw: "d/**"}
 	default:
 		return Sel{K: "glob", Dir: pkg, Ext: "", Raw: "*"}
+	}
+}
+
+func (g *gstate) randIgn(pkg string) Ign {
+	switch g.r.Intn(7) {
+	case 0:
+		return Ign{K: "dir", Dir: pkg + "/d", Raw: "d/"}
+	case 1:
+		return Ign{K: "dir", Dir: pkg + "/d/g", Raw: "d/g/"}
+	case 2:
+		return Ign{K: "glob", Dir: pkg, Ext: ".go", Raw: "*.go"}
+	case 3:
+		return Ign{K: "glob", Dir: pkg + "/d", Ext: ".txt", Raw: "d/*.txt"}
+	case 4:
+		return Ign{K: "lit", Name: pkg + "/a.txt", Raw: "a.txt"}
+	case 5:
+		return Ign{K: "glob", Dir: pkg, Ext: ".md", Raw: "*.md"}
+	default: // the package directory itself: everything beneath it
+		return Ign{K: "dir", Dir: pkg, Raw: "./"}
 	}
 }
 
@@ -146,6 +166,13 @@ func (g *gstate) newRule(idx int, allowFlaw bool) Rule {
 			s := g.randSel(pkg)
 			if g.selMatches(s) || (allowFlaw && g.r.Intn(12) == 0 && s.Raw != "*") {
 				r.Sels = append(r.Sels, s)
+			}
+		}
+		if len(r.Sels) > 0 {
+			for i := 0; i < g.r.Intn(3); i++ {
+				if g.r.Intn(2) == 0 {
+					r.Igns = append(r.Igns, g.randIgn(pkg))
+				}
 			}
 		}
 		fsets := g.fileSets(idx)
@@ -316,7 +343,15 @@ func (g *gstate) rulesOp(oldRules *[][]Rule) (Op, bool) {
 		i := g.r.Intn(len(rs))
 		r := &rs[i]
 		if r.K == "file_set" {
-			switch g.r.Intn(4) {
+			switch g.r.Intn(6) {
+			case 4:
+				if len(r.Sels) > 0 {
+					r.Igns = append(r.Igns, g.randIgn(r.Dir))
+				}
+			case 5:
+				if len(r.Igns) > 0 {
+					r.Igns = r.Igns[1:]
+				}
 			case 0:
 				if s, ok := g.pickSrc(); ok {
 					r.Files = append(r.Files, s)
@@ -411,7 +446,9 @@ func (g *gstate) tamperOp() (Op, bool) {
 		return Op{}, false
 	}
 	out := fsets[g.r.Intn(len(fsets))] + ".fileset"
-	switch g.r.Intn(4) {
+	switch g.r.Intn(6) {
+	case 4, 5:
+		return Op{K: "touchout", What: "chmod-output", Out: out}, true
 	case 0:
 		return Op{K: "tamper", What: "delete-output", Out: out}, true
 	case 1: // a well-formed but wrong list
@@ -460,9 +497,12 @@ func history(r *hx.Rng, stream string, maxOps int) Case {
 	for len(c.Ops) < nops {
 		k := r.Intn(100)
 		switch {
+		case k < 3: // time passes: an hour, days, beyond the expiry
+			dts := []int64{3600e9, 3 * 86400e9, 7*86400e9 - 1e9, 2e9, 8 * 86400e9}
+			c.Ops = append(c.Ops, Op{K: "advance", What: "advance", Dt: dts[r.Intn(len(dts))]})
 		case k < 35:
 			ts := g.targets()
-			c.Ops = append(c.Ops, Op{K: "build", Targets: ts})
+			c.Ops = append(c.Ops, Op{K: "build", Targets: ts, Always: r.Intn(12) == 0})
 			lastTargets = ts
 			if r.Intn(10) < 3 { // again, nothing changed
 				c.Ops = append(c.Ops, Op{K: "build", Targets: ts})
@@ -561,9 +601,9 @@ func corpus() []Case {
 	return cs
 }
 
-// edgeCases: workspaces of file_set and bundle rules outside the scope of the
-// Coq model (a file set listing an output file; a rule named like a source
-// file). Only the implementation-only oracle looks at them.
+// edgeCases: the two corner cases repaired in round 2 (a file set listing
+// an output file; a rule named like a source file), and fixed histories for
+// ignores, output chmod, cache expiry and AlwaysRebuild.
 func edgeCases() []Case {
 	st := func(size int64, tick int64) Stat {
 		return Stat{Size: size, Mtime: (baseTime + tick) * 1000000000, Mode: 0o644}
@@ -577,7 +617,7 @@ func edgeCases() []Case {
 		b := Rule{K: "file_set", Dir: "p0", Local: "b", Name: "p0/b", Files: []string{"p0/x.txt"}}
 		a := Rule{K: "file_set", Dir: "p0", Local: "a", Name: "p0/a", Files: []string{"p0/b.fileset"}}
 		n := 7
-		cs = append(cs, Case{Stream: "edge-fileset-lists-output", Pkgs: []string{"p0"}, Rules: []Rule{b, a},
+		cs = append(cs, Case{Stream: "corpus-fileset-lists-output", Pkgs: []string{"p0"}, Rules: []Rule{b, a},
 			Src: []SrcFile{file("p0/x.txt", "one\n", 1)},
 			Ops: []Op{build("p0/a"), {K: "tamper", What: "overwrite-garbage", Out: "p0/b.fileset", Garbage: &n},
 				build("p0/a")}})
@@ -587,11 +627,37 @@ func edgeCases() []Case {
 		x := Rule{K: "file_set", Dir: "p0", Local: "x", Name: "p0/x",
 			Sels: []Sel{{K: "glob", Dir: "p0", Ext: ".go", Raw: "*.go"}}, Include: []string{"p0/k.go"}}
 		s := st(10, 5)
-		cs = append(cs, Case{Stream: "edge-rule-shadows-source", Pkgs: []string{"p0"}, Rules: []Rule{k, x},
+		cs = append(cs, Case{Stream: "corpus-rule-shadows-source", Pkgs: []string{"p0"}, Rules: []Rule{k, x},
 			Src: []SrcFile{file("p0/a.go", "package a\n", 1)},
 			Ops: []Op{build("p0/x"),
 				{K: "src", What: "add", Name: "p0/k.go", Stat: &s, Content: "package k\n"},
 				build("p0/x")}})
+	}
+	{ // files moving in and out of ignore patterns; output chmod; expiry; AlwaysRebuild
+		a := Rule{K: "file_set", Dir: "p0", Local: "a", Name: "p0/a",
+			Sels: []Sel{{K: "all", Dir: "p0", Raw: "**"}},
+			Igns: []Ign{{K: "dir", Dir: "p0/d", Raw: "d/"}, {K: "glob", Dir: "p0", Ext: ".md", Raw: "*.md"},
+				{K: "lit", Name: "p0/skip.txt", Raw: "skip.txt"}}}
+		a2 := a
+		a2.Igns = []Ign{{K: "glob", Dir: "p0", Ext: ".md", Raw: "*.md"}}
+		all := Rule{K: "bundle", Dir: "p0", Local: "all", Name: "p0/all", Deps: []string{"p0/a"}}
+		set := func(name, content string, tick int64) Op {
+			s := st(int64(len(content)), tick)
+			return Op{K: "src", What: "add", Name: name, Stat: &s, Content: content}
+		}
+		del := func(name string) Op { return Op{K: "src", What: "delete", Name: name} }
+		cs = append(cs, Case{Stream: "corpus-round2", Pkgs: []string{"p0"}, Rules: []Rule{a, all},
+			Src: []SrcFile{file("p0/x.txt", "one\n", 1), file("p0/d/in.txt", "deep\n", 2), file("p0/d2/y.txt", "why\n", 3)},
+			Ops: []Op{build("p0/all"),
+				set("p0/d/more.txt", "ignored\n", 10), build("p0/all"), // beneath an ignored directory
+				set("p0/dx.txt", "not ignored\n", 11), build("p0/all"), // d is a prefix of the name only
+				set("p0/notes.md", "ignored\n", 12), set("p0/skip.txt", "ignored\n", 13), build("p0/all"),
+				del("p0/d/in.txt"), build("p0/all"),
+				{K: "rules", What: "change-rule", Rules: []Rule{a2, all}}, build("p0/all"), // d/ no longer ignored
+				{K: "touchout", What: "chmod-output", Out: "p0/a.fileset"}, build("p0/all"), build("p0/all"),
+				{K: "advance", What: "advance", Dt: 7*86400e9 - 1e9}, build("p0/all"),
+				{K: "advance", What: "advance", Dt: 1e9}, build("p0/all"), build("p0/all"),
+				{K: "build", Targets: []string{"p0/all"}, Always: true}, build("p0/all")}})
 	}
 	return cs
 }
